@@ -365,14 +365,18 @@ func findFunc(ld *Loader, pkgDir, name string) *ssa.Function {
 }
 
 func newMachine(ld *Loader, cfg *HarnessCfg, backend string, timeoutMs int) (*Machine, error) {
-	incMs := timeoutMs
-	if os.Getenv("GOSYM_ONESHOT") != "0" {
-		incMs = 300
-		if v, ok := cfg.Params["incTimeoutMs"]; ok {
-			incMs = v
+	incRl := 0
+	if os.Getenv("GOSYM_ONESHOT") != "0" && (backend == "" || strings.HasPrefix(backend, "z3")) {
+		incRl = 400000
+		if v, ok := cfg.Params["incRlimit"]; ok {
+			incRl = v
 		}
 	}
-	s, err := NewSolver(backend, incMs)
+	incMs := timeoutMs
+	if v, ok := cfg.Params["incTimeoutMs"]; ok {
+		incMs = v
+	}
+	s, err := NewSolverOpts(backend, incMs, incRl, false)
 	if err != nil {
 		return nil, err
 	}
@@ -388,7 +392,7 @@ func newMachine(ld *Loader, cfg *HarnessCfg, backend string, timeoutMs int) (*Ma
 		m.maxSteps = int64(v)
 	}
 	if os.Getenv("GOSYM_ONESHOT") != "0" {
-		m.oneshot, err = NewSolver(backend, timeoutMs)
+		m.oneshot, err = NewSolverOpts(backend, timeoutMs, 0, true)
 		if err != nil {
 			return nil, err
 		}
